@@ -6,17 +6,122 @@ pub open spec fn amp_at(init: nat, target: nat, now: nat, start: nat, stop: nat)
     else if target >= init { Some(init + ((target - init) as nat) * ((now - start) as nat) / ((stop - start) as nat)) }
     else { Some((init - ((init - target) as nat) * ((now - start) as nat) / ((stop - start) as nat)) as nat) }
 }
-pub uninterp spec fn trio_d(s: StableSwap, a: nat, b: nat, c: nat) -> Option<nat>;
-pub uninterp spec fn trio_y(s: StableSwap, x: nat, no_swap: nat, d: nat) -> Option<nat>;
+// ---- the two Newton solvers of the 3pool, DEFINED as the iterations the code documents (they were uninterpreted before) ----
+// `*_fits` predicates spell out, step by step, the region in which no 128/256-bit intermediate overflows and no division by zero occurs;
+// outside it the real code ABORTS on an `unwrap` (the transaction reverts). That the iterations CONVERGE to the root of the invariant is
+// outside SMT reach (C04 not_covered).
+pub open spec fn t_close(x: nat, y: nat) -> bool { if x > y { x - y <= 1 } else { y - x <= 1 } }
+/// amplification values for which a Newton step for D is defined (ann = 3*amp fits u64 and ann - 1 does not underflow)
+pub open spec fn trio_amp_ok(amp: u64) -> bool { 1 <= amp && amp as nat * 3 <= u64::MAX }
+/// d' = (ann*S + d_prod*n) * d / ((ann - 1) * d + (n + 1) * d_prod),  n = 3, ann = 3*amp, rounded down
+pub open spec fn trio_next_d(amp: u64, d: nat, dp: nat, sum: nat) -> nat {
+    (d * (dp * 3 + sum * (amp as nat * 3))) / (d * ((amp as nat * 3 - 1) as nat) + dp * 4)
+}
+pub open spec fn trio_next_d_fits(amp: u64, d: nat, dp: nat, sum: nat) -> bool {
+    &&& trio_amp_ok(amp)
+    &&& dp * 3 + sum * (amp as nat * 3) < pow256()
+    &&& d * (dp * 3 + sum * (amp as nat * 3)) < pow256()
+    &&& d * ((amp as nat * 3 - 1) as nat) + dp * 4 < pow256()
+    &&& d * ((amp as nat * 3 - 1) as nat) + dp * 4 > 0
+}
+/// d_prod = D^4 / (27 a b c), floored after each factor as the code does
+pub open spec fn trio_d_prod(d: nat, a3: nat, b3: nat, c3: nat) -> nat { ((d * d / a3) * d / b3) * d / c3 }
+pub open spec fn trio_d_step_fits(amp: u64, a3: nat, b3: nat, c3: nat, sum: nat, d: nat) -> bool {
+    &&& d * d < pow256()
+    &&& (d * d / a3) * d < pow256()
+    &&& ((d * d / a3) * d / b3) * d < pow256()
+    &&& trio_next_d_fits(amp, d, trio_d_prod(d, a3, b3, c3), sum)
+}
+/// the iteration from `d`: up to `k` further steps, stopping as soon as two successive iterates differ by at most 1
+pub open spec fn trio_d_iter(amp: u64, a3: nat, b3: nat, c3: nat, sum: nat, d: nat, k: nat) -> nat decreases k {
+    if k == 0 { d } else {
+        let dn = trio_next_d(amp, d, trio_d_prod(d, a3, b3, c3), sum);
+        if t_close(dn, d) { dn } else { trio_d_iter(amp, a3, b3, c3, sum, dn, (k - 1) as nat) }
+    }
+}
+pub open spec fn trio_d_iter_fits(amp: u64, a3: nat, b3: nat, c3: nat, sum: nat, d: nat, k: nat) -> bool decreases k {
+    if k == 0 { true } else {
+        let dn = trio_next_d(amp, d, trio_d_prod(d, a3, b3, c3), sum);
+        trio_d_step_fits(amp, a3, b3, c3, sum, d) && (t_close(dn, d) || trio_d_iter_fits(amp, a3, b3, c3, sum, dn, (k - 1) as nat))
+    }
+}
+/// the invariant D of raw reserves (a, b, c): 0 for an empty pool; none while the amplification ramp has not started; else the Newton
+/// iteration from a + b + c, for up to 256 steps
+#[verifier::opaque]
+pub open spec fn trio_d(s: StableSwap, a: nat, b: nat, c: nat) -> Option<nat> {
+    if a + b + c == 0 { Some(0) } else {
+        match amp_at(s.initial_amp_factor as nat, s.target_amp_factor as nat, s.current_ts as nat, s.start_ramp_ts as nat, s.stop_ramp_ts as nat) {
+            None => None,
+            Some(amp) => Some(trio_d_iter(amp as u64, 3 * a, 3 * b, 3 * c, a + b + c, a + b + c, 256)),
+        }
+    }
+}
+/// compute_d returns (does not abort) exactly here
+#[verifier::opaque]
+pub open spec fn trio_d_fits(s: StableSwap, a: nat, b: nat, c: nat) -> bool {
+    &&& a + b + c < POW128
+    &&& (a + b + c > 0 ==> (amp_at(s.initial_amp_factor as nat, s.target_amp_factor as nat, s.current_ts as nat, s.start_ramp_ts as nat, s.stop_ramp_ts as nat) matches Some(amp) ==> {
+            &&& amp <= u64::MAX
+            &&& 3 * a < POW128 && 3 * b < POW128 && 3 * c < POW128 && a > 0 && b > 0 && c > 0
+            &&& trio_d_iter_fits(amp as u64, 3 * a, 3 * b, 3 * c, a + b + c, a + b + c, 256)
+        }))
+}
+/// y' = (y^2 + c) / (2y + b - D)
+pub open spec fn trio_y_step(y: nat, c: nat, b: nat, d: nat) -> nat { (y * y + c) / ((2 * y + b - d) as nat) }
+pub open spec fn trio_y_step_fits(y: nat, c: nat, b: nat, d: nat) -> bool {
+    y * y + c < pow256() && 2 * y + b < pow256() && 2 * y + b > d
+}
+pub open spec fn trio_y_iter(y: nat, c: nat, b: nat, d: nat, k: nat) -> nat decreases k {
+    if k == 0 { y } else {
+        let yn = trio_y_step(y, c, b, d);
+        if t_close(yn, y) { yn } else { trio_y_iter(yn, c, b, d, (k - 1) as nat) }
+    }
+}
+pub open spec fn trio_y_iter_fits(y: nat, c: nat, b: nat, d: nat, k: nat) -> bool decreases k {
+    if k == 0 { true } else {
+        let yn = trio_y_step(y, c, b, d);
+        trio_y_step_fits(y, c, b, d) && (t_close(yn, y) || trio_y_iter_fits(yn, c, b, d, (k - 1) as nat))
+    }
+}
+/// c = D^4 / (27 x z * 3 ann) floored after each factor,  b = D/ann + x + z   (x: the offered side's new reserve, z: the untouched reserve)
+pub open spec fn trio_y_c(x: nat, z: nat, d: nat, ann: nat) -> nat { ((d * d / (3 * x)) * d / (3 * z)) * d / (ann * 3) }
+pub open spec fn trio_y_b(x: nat, z: nat, d: nat, ann: nat) -> nat { d / ann + x + z }
+/// the new reserve of the asked side: none while the ramp has not started or when 3*amp leaves u64; else the Newton iteration for
+/// y^2 + b*y = c from y = D, for up to 1000 steps
+#[verifier::opaque]
+pub open spec fn trio_y(s: StableSwap, x: nat, no_swap: nat, d: nat) -> Option<nat> {
+    match amp_at(s.initial_amp_factor as nat, s.target_amp_factor as nat, s.current_ts as nat, s.start_ramp_ts as nat, s.stop_ramp_ts as nat) {
+        None => None,
+        Some(amp) => if amp * 3 > u64::MAX { None } else {
+            Some(trio_y_iter(d, trio_y_c(x, no_swap, d, amp * 3), trio_y_b(x, no_swap, d, amp * 3), d, 1000)) },
+    }
+}
+/// compute_y_raw returns (does not abort) exactly here
+#[verifier::opaque]
+pub open spec fn trio_y_fits(s: StableSwap, x: nat, z: nat, d: nat) -> bool {
+    amp_at(s.initial_amp_factor as nat, s.target_amp_factor as nat, s.current_ts as nat, s.start_ramp_ts as nat, s.stop_ramp_ts as nat) matches Some(amp) ==>
+        (amp * 3 <= u64::MAX ==> {
+            let ann = amp * 3;
+            &&& amp >= 1 && ann * 3 <= u64::MAX
+            &&& 3 * x < POW128 && 3 * z < POW128 && x > 0 && z > 0
+            &&& d * d < pow256() && (d * d / (3 * x)) * d < pow256() && ((d * d / (3 * x)) * d / (3 * z)) * d < pow256()
+            &&& trio_y_b(x, z, d, ann) < pow256()
+            &&& trio_y_iter_fits(d, trio_y_c(x, z, d, ann), trio_y_b(x, z, d, ann), d, 1000)
+        })
+}
 /// preconditions under which swap_to does not abort (they restate the solver assumptions; an abort reverts the transaction)
 pub open spec fn swap_to_ok(s: StableSwap, amount: nat, src: nat, dest: nat, unsw: nat) -> bool {
     &&& src + amount < POW128
+    &&& trio_d_fits(s, src, dest, unsw)
+    &&& (trio_d(s, src, dest, unsw) matches Some(d) ==> d < pow256() ==> trio_y_fits(s, src + amount, unsw, d))
     &&& trio_d(s, src, dest, unsw) is Some
     &&& trio_d(s, src, dest, unsw)->Some_0 < pow256()
     &&& (trio_y(s, src + amount, unsw, trio_d(s, src, dest, unsw)->Some_0) matches Some(y) ==> y + 1 <= dest)
 }
 pub open spec fn mint_ok(s: StableSwap, da: nat, db: nat, dc: nat, a: nat, b: nat, c: nat, supply: nat) -> bool {
     &&& a + da < POW128 && b + db < POW128 && c + dc < POW128
+    &&& trio_d_fits(s, a, b, c)
+    &&& (trio_d(s, a, b, c) is Some ==> trio_d_fits(s, a + da, b + db, c + dc))
     &&& (trio_d(s, a, b, c) matches Some(d0) ==> (trio_d(s, a + da, b + db, c + dc) matches Some(d1) ==>
             (d1 > d0 ==> d0 > 0 && supply * (d1 - d0) < pow256() && supply * ((d1 - d0) as nat) / d0 < POW128)))
 }
